@@ -4,6 +4,7 @@ go 1.21
 
 require (
 	github.com/holiman/uint256 v1.2.0
+	github.com/kilic/bls12-381 v0.1.0
 	github.com/protolambda/bls12-381-util v0.1.0
 	github.com/protolambda/zrnt v0.0.0
 	github.com/protolambda/ztyp v0.2.2
@@ -11,7 +12,6 @@ require (
 )
 
 require (
-	github.com/kilic/bls12-381 v0.1.0 // indirect
 	github.com/minio/sha256-simd v0.1.0 // indirect
 	golang.org/x/sys v0.17.0 // indirect
 )
